@@ -211,6 +211,8 @@ pub struct Options {
   pub replay: Option<String>,
   pub only: Option<String>,
   pub verif_dir: String,
+  /// where replays/ and evidence/ are written (VERIF_OUT; default: verif_dir)
+  pub out_dir: String,
   pub write_evidence: bool,
 }
 
@@ -342,7 +344,7 @@ pub fn run_property(spec: PropSpec, opt: Options) -> i32 {
     let check = v["check"].as_str().unwrap_or("").to_string();
     let seed = v["seed"].as_u64().unwrap_or(opt.seed);
     let tier = if v["tier"].as_str() == Some("thorough") { Tier::Thorough } else { Tier::Quick };
-    let o2 = Options { tier, seed, replay: None, only: None, verif_dir: opt.verif_dir.clone(), write_evidence: false };
+    let o2 = Options { tier, seed, replay: None, only: None, verif_dir: opt.verif_dir.clone(), out_dir: opt.out_dir.clone(), write_evidence: false };
     match rerun_case(&spec, &check, &v["case"], &o2) {
       Err(e) => {
         eprintln!("machinery error: {}", e);
@@ -424,12 +426,12 @@ pub fn run_property(spec: PropSpec, opt: Options) -> i32 {
   let mut n_written = 0;
   let mut new_violations = 0u64;
   let mut known_hits = vec![];
-  let _ = std::fs::create_dir_all(format!("{}/replays", opt.verif_dir));
+  let _ = std::fs::create_dir_all(format!("{}/replays", opt.out_dir));
   for (key, vs) in &by_key {
     let first = vs[0];
     let is_known = known.iter().find(|f| &f.key == key);
     // determinism: the recorded case must reproduce the same violation key
-    let o2 = Options { tier: opt.tier, seed: opt.seed, replay: None, only: None, verif_dir: opt.verif_dir.clone(), write_evidence: false };
+    let o2 = Options { tier: opt.tier, seed: opt.seed, replay: None, only: None, verif_dir: opt.verif_dir.clone(), out_dir: opt.out_dir.clone(), write_evidence: false };
     match rerun_case(&spec, first.3, &first.4, &o2) {
       Ok(keys) if keys.iter().any(|(k, _)| k == key) => {}
       Ok(_) => {
@@ -442,7 +444,7 @@ pub fn run_property(spec: PropSpec, opt: Options) -> i32 {
       }
     }
     let tag = if is_known.is_some() { "known" } else { "v" };
-    let path = format!("{}/replays/{}-{}-{}.json", opt.verif_dir, spec.id, tag, n_written);
+    let path = format!("{}/replays/{}-{}-{}.json", opt.out_dir, spec.id, tag, n_written);
     n_written += 1;
     let rec = json!({
       "property": spec.id, "check": first.3, "tier": opt.tier.name(), "seed": opt.seed,
@@ -501,8 +503,8 @@ pub fn run_property(spec: PropSpec, opt: Options) -> i32 {
     "violations": new_violations,
   });
   if opt.write_evidence && opt.only.is_none() {
-    let _ = std::fs::create_dir_all(format!("{}/evidence", opt.verif_dir));
-    let p = format!("{}/evidence/{}.json", opt.verif_dir, spec.id);
+    let _ = std::fs::create_dir_all(format!("{}/evidence", opt.out_dir));
+    let p = format!("{}/evidence/{}.json", opt.out_dir, spec.id);
     if let Err(e) = std::fs::write(&p, serde_json::to_string_pretty(&evidence).unwrap()) {
       eprintln!("machinery error: cannot write {}: {}", p, e);
       return 2;
